@@ -252,18 +252,29 @@ fn is_data_line(m: &str) -> bool {
     !(t.is_empty() || t.starts_with("error") || t.starts_with("permission denied") || t == "invalid auth" || t == "valid auth" || t.starts_with("ack "))
 }
 
-fn execute(prog: Program) -> Outcome {
+fn execute(prog: Program, cluster: bool) -> Outcome {
     let mut out = Outcome { setup: Err("boot".into()), violations: vec![], denied_checked: 0, allowed_checked: 0 };
-    let w = World::new(1);
-    w.boot(0, "");
+    let w = World::new(if cluster { 2 } else { 1 });
+    let addrs = if cluster { w.all_tcp() } else { String::new() };
+    w.boot(0, &addrs);
     if !w.wait_primary(0, 5_000) {
         out.setup = Err("setup_unstable".into());
         return out;
+    }
+    if cluster {
+        // a secondary follows the primary: a refused command must not reach it either
+        w.boot(1, &addrs);
+        let ok = wait_cond(12_000, 50, || w.agreed_primary() == Ok(0)) && w.settle(300, 3_000);
+        if !ok || w.agreed_primary() != Ok(0) {
+            out.setup = Err("setup_unstable".into());
+            return out;
+        }
     }
     let dbs = match w.dbs(0) {
         Some(d) => d,
         None => return out,
     };
+    let dbs_secondary = if cluster { w.dbs(1) } else { None };
     let mut admin = Session::admin(&dbs);
     if admin.exec("create-db d tok arbiter").resp.is_err() {
         return out;
@@ -280,6 +291,10 @@ fn execute(prog: Program) -> Outcome {
     // let the start-up election finish its bookkeeping (the supervisor adds the node to its own
     // member table asynchronously)
     sleep_ms(100);
+    if cluster && !w.settle(300, 5_000) {
+        out.setup = Err("setup_unstable".into());
+        return out;
+    }
     out.setup = Ok(());
     // the session under test
     let mut s = Session::new(&dbs);
@@ -337,6 +352,9 @@ fn execute(prog: Program) -> Outcome {
                     }
                 }
                 perms = p.clone();
+                if cluster {
+                    w.settle(100, 2_000);
+                }
             }
             Step::Command { cmd, key } => {
                 uniq += 1;
@@ -385,6 +403,9 @@ fn execute(prog: Program) -> Outcome {
                         continue;
                     }
                     let r = s.exec(&l);
+                    if cluster {
+                        w.settle(100, 2_000);
+                    }
                     out.allowed_checked += 1;
                     let denied_text = match &r.resp {
                         Resp::Error(m) => m.contains("permission denied") || m.contains("Not auth") || m.contains("no-db-selected") || m.contains("must auth as an admin"),
@@ -407,10 +428,22 @@ fn execute(prog: Program) -> Outcome {
                     }
                 } else {
                     let before = full_state(&w, &dbs);
+                    let before_secondary = dbs_secondary.as_ref().map(|d| full_state(&w, d).dump);
                     let r = s.exec(&l);
                     sleep_ms(5);
+                    if cluster {
+                        w.settle(100, 2_000);
+                    }
                     let after = full_state(&w, &dbs);
+                    let after_secondary = dbs_secondary.as_ref().map(|d| full_state(&w, d).dump);
                     out.denied_checked += 1;
+                    if before_secondary != after_secondary {
+                        out.violations.push(Violation::new(
+                            "denied-but-replicated",
+                            format!("{:?}:{}", cmd, cred),
+                            format!("step #{} `{}` with credential {} (permissions {:?}) must be refused (reply {:?}) but the secondary's data changed", i, l, cred, perms, r.resp),
+                        ));
+                    }
                     if before != after {
                         let what = if before.dump != after.dump {
                             "data"
@@ -455,13 +488,13 @@ impl Property for C09 {
         "C09"
     }
     fn scenarios(&self) -> Vec<(&'static str, u32)> {
-        vec![("matrix", 1)]
+        vec![("matrix", 7), ("matrix-with-secondary", 1)]
     }
     fn budget(&self) -> (u64, u64) {
         (40_000, 1_000_000)
     }
     fn rule(&self) -> &'static str {
-        "one session performs 1-6 steps of {login: administrator ok / wrong password, database token, wrong token, unknown database, user token ok / wrong; the administrator (another session) replaces or removes the user's permission list mid-session; one of 35 commands (every command word of the parser) on one of 5 keys incl. a $$ key}, permission lists from 9 lists over {r,w,i,x} with prefix*, *suffix and contains patterns. Access-control reference model: administrative and cluster commands need the administrator login; data commands need a selected database and, for user-token sessions, a permission entry of the right kind whose pattern matches the key; $$ keys need the administrator. Denied => the full white-box state (all databases, role, member table, snapshot queue, pending operations) is unchanged and the session receives no data line; allowed => no permission/credential error. Disruptive cluster commands are only tested for refusal. Non-trivial: at least one denied command was checked. distinct = distinct programs."
+        "one session performs 1-6 steps of {login: administrator ok / wrong password, database token, wrong token, unknown database, user token ok / wrong; the administrator (another session) replaces or removes the user's permission list mid-session; one of 35 commands (every command word of the parser) on one of 5 keys incl. a $$ key}, permission lists from 9 lists over {r,w,i,x} with prefix*, *suffix and contains patterns. Access-control reference model: administrative and cluster commands need the administrator login; data commands need a selected database and, for user-token sessions, a permission entry of the right kind whose pattern matches the key; $$ keys need the administrator. Denied => the full white-box state (all databases, role, member table, snapshot queue, pending operations) is unchanged and the session receives no data line; allowed => no permission/credential error. Disruptive cluster commands are only tested for refusal. Scenario matrix-with-secondary runs the same walk on the primary of a 2-node cluster: a refused command must leave the secondary's data unchanged as well. Non-trivial: at least one denied command was checked. distinct = distinct programs."
     }
     fn assumptions(&self) -> Vec<String> {
         vec![
@@ -482,7 +515,8 @@ impl Property for C09 {
         cfg.policy = policy_for(Rng::new(ctx.seed ^ 0x9011c7).next_u64());
         cfg.trace = ctx.trace;
         let p2 = prog.clone();
-        let outcome = run_sim(cfg, move || execute(p2));
+        let cluster = scenario == "matrix-with-secondary";
+        let outcome = run_sim(cfg, move || execute(p2, cluster));
         clear_registry();
         let mut rep = RunReport { seed: ctx.seed, scenario: scenario.to_string(), ..Default::default() };
         rep.program = serde_json::to_value(&prog).unwrap();
